@@ -78,9 +78,9 @@ class Explorer(object):
          on_attr(ex, node, obj, attr) -> value | NOT_HANDLED
        ex.choose(label, options) inside a hook forks the exploration."""
 
-    def __init__(self, port, modname, on_call=None, on_attr=None, max_choices=6, max_steps=20000, follow=True):
+    def __init__(self, port, modname, on_call=None, on_attr=None, max_choices=6, max_steps=20000, follow=True, on_name=None):
         self.port, self.modname = port, modname
-        self.on_call, self.on_attr = on_call, on_attr
+        self.on_call, self.on_attr, self.on_name = on_call, on_attr, on_name
         self.max_choices, self.max_steps = max_choices, max_steps
         self.follow = follow
         self.run = None
@@ -290,7 +290,7 @@ class Explorer(object):
             raise Undecided('assignment target outside the abstract interpreter', target)
 
     def truth(self, v, node):
-        if v is None or isinstance(v, (bool, int, float, str, list, tuple, dict)):
+        if v is None or isinstance(v, (bool, int, float, str, list, tuple, dict, set)):
             return bool(v)
         if isinstance(v, Abs):
             if 'truth' in v.props:
@@ -312,6 +312,10 @@ class Explorer(object):
         if isinstance(e, ast.Name):
             if e.id in env:
                 return env[e.id]
+            if self.on_name is not None:
+                v = self.on_name(self, e, e.id)
+                if v is not NOT_HANDLED:
+                    return v
             if e.id in ('None', 'undefined', 'null'):
                 return None
             if e.id in ('True', 'False'):
@@ -319,7 +323,7 @@ class Explorer(object):
             c = self.port.module_consts(self.modname).get(e.id, NOT_HANDLED) if hasattr(self.port, 'module_consts') else NOT_HANDLED
             if c is not NOT_HANDLED:
                 return c
-            if e.id in ('len', 'iter', 'str', 'int', 'bool', 'list', 'tuple', 'isinstance', 'range', 'enumerate', 'min', 'max', 'any', 'all'):
+            if e.id in ('len', 'iter', 'str', 'int', 'bool', 'list', 'tuple', 'isinstance', 'range', 'enumerate', 'min', 'max', 'any', 'all', 'type', 'set', 'Set'):
                 return ('builtin', e.id)
             raise Undecided('name {} unknown in abstract exploration'.format(e.id), e)
         if isinstance(e, (ast.List, ast.Tuple)):
@@ -536,7 +540,7 @@ class Explorer(object):
         raise Undecided('call of {!r} is outside the abstract interpreter'.format(f), node)
 
     def builtin(self, name, args, node):
-        if name == 'len' and len(args) == 1 and isinstance(args[0], (list, tuple, str, dict)):
+        if name == 'len' and len(args) == 1 and isinstance(args[0], (list, tuple, str, dict, set)):
             return len(args[0])
         if name == 'iter' and len(args) == 2:
             f = args[0]
@@ -546,6 +550,12 @@ class Explorer(object):
                 ast.copy_location(fake, node)
                 ast.fix_missing_locations(fake)
                 return LazyIter(lambda: self.call(fake, {'__recv__': recv}), args[1])
+        if name == 'type' and len(args) == 1 and isinstance(args[0], Abs) and 'cls' in args[0].props:
+            return ('class', args[0].props['cls'])
+        if name == 'isinstance' and len(args) == 2 and isinstance(args[1], tuple) and args[1] and args[1][0] == 'class':
+            return isinstance(args[0], Abs) and args[0].props.get('cls') == args[1][1]
+        if name in ('set', 'Set') and not args:
+            return set()
         if name in ('any', 'all') and len(args) == 1 and isinstance(args[0], (list, tuple)):
             ts = [self.truth(x, node) for x in args[0]]
             return any(ts) if name == 'any' else all(ts)
@@ -613,6 +623,12 @@ class Explorer(object):
                     except (IndexError, KeyError, ValueError):
                         pass
                 return Abs('Text', parts=(recv,) + tuple(args))
+        if isinstance(recv, set):
+            if m == 'add' and len(args) == 1:
+                recv.add(args[0])
+                return None
+            if m == 'has' and len(args) == 1:
+                return args[0] in recv
         if isinstance(recv, dict):
             if m == 'get' and 1 <= len(args) <= 2:
                 return recv.get(args[0], args[1] if len(args) == 2 else None)
